@@ -1211,6 +1211,24 @@ def mk_call(fn, args=(), kwargs=()):
         if r_ is not None and r_ >= 1:
             return mk_call(fn, args, tuple(kwargs) + (('axis', Term.num(r_ - 1)),))
     if fn in ('hstack', 'vstack') and len(args) == 1 and not kwargs and args[0].single_atom() is not None and \
+            args[0].single_atom().kind == 'call' and args[0].single_atom().args[0] in ('list', 'tuple') and \
+            len(args[0].single_atom().args[1]) == 1 and (rank_of(args[0].single_atom().args[1][0]) or 0) >= 3:
+        # hstack(list(X)) of one array X of three or more axes: list() only spells out the iteration over the first axis
+        return mk_call(fn, [args[0].single_atom().args[1][0]])
+    if fn == 'roll' and ((len(args) == 1 and set(k_ for k_, _ in kwargs) == {'shift', 'axis'}) or
+                         (len(args) == 2 and set(k_ for k_, _ in kwargs) == {'axis'})):
+        # np.roll(X, n // 2, axis=k) with n the length of axis k is fftshift along k (for even and odd n)
+        kd_ = dict(kwargs)
+        if len(args) == 2:
+            kd_['shift'] = args[1]
+        ax_ = kd_['axis'].const()
+        if ax_ is not None and ax_.denominator == 1:
+            r_ = rank_of(args[0])
+            ax_ = int(ax_) if ax_ >= 0 else (int(ax_) + r_ if r_ is not None else None)
+            d_ = shape_dim(args[0], ax_) if ax_ is not None and ax_ >= 0 else None
+            if d_ is not None and _cmp_canon(kd_['shift']).key == _cmp_canon(mk_call('floordiv', [d_, Term.num(2)])).key:
+                return mk_call('fftshift', [args[0]], [('axes', Term.num(ax_))])
+    if fn in ('hstack', 'vstack') and len(args) == 1 and not kwargs and args[0].single_atom() is not None and \
             args[0].single_atom().kind not in ('tuple', 'list', 'comp') and (rank_of(args[0]) or 0) >= 3:
         # stacking ONE array of three or more axes iterates its first axis: hstack joins the items side by side
         return mk_call('concatenate', [args[0]], [('axis', Term.num(1 if fn == 'hstack' else 0))])
@@ -1610,7 +1628,17 @@ def shape_dim(arr, k):
                     d = shape_dim(Term.of(x), k)
                     if d is not None:
                         return d
+        # a single product: the shape of its one array factor of known shape (the other factors are scalars)
+        if len(arr.p) == 1:
+            (m, c), = arr.p.items()
+            ds = [shape_dim(Term.of(x), k) for x, _ in m]
+            ds = [d for d in ds if d is not None]
+            if len(ds) == 1:
+                return ds[0]
         return None
+    if a.kind == 'call' and a.args[0] in ('fft', 'ifft', 'fftshift', 'ifftshift', 'abs', 'real', 'imag', 'conj', 'astype', 'copy') \
+            and a.args[1] and not any(k_ == 'n' for k_, _ in a.args[2]):
+        return shape_dim(a.args[1][0], k)
     if a.kind == 'ite':
         d1_, d2_ = shape_dim(a.args[1], k), shape_dim(a.args[2], k)
         if d1_ is not None and d2_ is not None:
